@@ -191,6 +191,10 @@ Proof. exact gen_not. Qed.
 Theorem C16_gen_xor : forall v l, XorCallback.condition (map (cond v) l) = cond v (PXor l).
 Proof. exact gen_xor. Qed.
 
+(* ConditionCallback.__call__: the action runs iff the condition holds (and an action is attached) *)
+Theorem C16_gen_call : forall c a, ConditionCallback.call c a = c && a.
+Proof. exact gen_call. Qed.
+
 Theorem C16_gen_repeated : forall (arg n s : Z) (tr : bool) (metric : string) (v : view),
   RepeatedMetricUp.fires arg tr metric n (hist_of tr v) = cond v (PRepeated (RUp arg) tr n s) /\
   RepeatedMetricDown.fires arg tr metric n (hist_of tr v) = cond v (PRepeated (RDown arg) tr n s) /\
